@@ -47,10 +47,12 @@ class C05(LoopSpec):
     def jobs(self, tier):
         if tier == "quick":
             return [mkjob("R1", 4, True, sym_body=["periodic"]), mkjob("R2", 4, True), mkjob("R3", 4, False),
-                    mkjob("R2", 3, False, sym_shutdown=True)]
+                    mkjob("R2", 3, False, sym_shutdown=True), mkjob("R1", 3, True, period="sym"),
+                    mkjob("R3", 3, True, period=0.05, sym_body=["periodic"])]
         return [mkjob("R1", 5, True, sym_body=["periodic"]), mkjob("R2", 6, True), mkjob("R3", 6, False),
                 mkjob("R2", 5, True, sym_shutdown=True), mkjob("R1", 4, True, raw_words=True),
-                mkjob("R3", 4, True, change_at_dispatch=True)]
+                mkjob("R3", 4, True, change_at_dispatch=True), mkjob("R1", 4, True, period="sym", sym_body=["periodic"]),
+                mkjob("R2", 4, True, period=0.005)]
 
     def reach_required(self, tier):
         return ["iteration-teleop", "iteration-auto", "iteration-disabled", "iteration-test", "timing-grid"]
@@ -74,7 +76,7 @@ class C05(LoopSpec):
 
 class C06(LoopSpec):
     id = "C06"
-    clauses = ["C06.setup", "C06.enter", "C06.leave", "C06.bracket"]
+    clauses = ["C06.setup", "C06.enter", "C06.leave sequence", "C06.leave mode-left", "C06.bracket"]
     outside = C05.outside
 
     def jobs(self, tier):
@@ -109,13 +111,16 @@ class C07(LoopSpec):
     def jobs(self, tier):
         if tier == "quick":
             return [mkjob("R1", 3, True, fms="sym", faults=1), mkjob("R2", 3, True, fms="sym", faults=1, use_teleop_in_autonomous=True),
-                    mkjob("R3", 3, False, fms=True, faults=2, fault_patterns=["always"])]
+                    mkjob("R3", 3, False, fms=True, faults=2, fault_patterns=["always"]),
+                    mkjob("R1", 3, True, fms="per-refresh", faults=1, fault_patterns=["always"])]
         return [mkjob("R1", 4, True, fms="sym", faults=1), mkjob("R2", 4, True, fms="sym", faults=1),
                 mkjob("R2", 3, True, fms=True, faults=2, fault_patterns=["always", "later"]),
-                mkjob("R3", 4, False, fms="sym", faults=1, sym_shutdown=True)]
+                mkjob("R3", 4, False, fms="sym", faults=1, sym_shutdown=True),
+                mkjob("R2", 3, True, fms="per-refresh", faults=1, fault_patterns=["always", "later"])]
 
     def reach_required(self, tier):
-        return ["fault-swallowed", "fault-propagated", "no-fault-fired", "iteration-auto", "iteration-teleop"]
+        return ["fault-swallowed", "fault-propagated", "no-fault-fired", "iteration-auto", "iteration-teleop",
+                "percall-all-swallowed", "percall-propagated-after-swallowed"]
 
     def path_fn(self, c, job):
         H = lcm.run_robot(c, job)
@@ -126,7 +131,30 @@ class C07(LoopSpec):
             c.prove("C07.run no-exception-without-fault", H.outcome[0] == "normal", info=dict(outcome=str(H.outcome)))
             return
         first_site = raised[0][1]
+        if job["cfg"].get("fms") == "per-refresh":
+            # the answer of the FMS query that follows each raise decides: swallowed (True) or propagated (False)
+            ev = H.log.ev
+            verdicts = []
+            for i, e in enumerate(ev):
+                if e[0] == "raise":
+                    q = next((x for x in ev[i + 1:] if x[0] in ("fms", "raise")), None)
+                    verdicts.append((e, bool(q[2]) if q is not None and q[0] == "fms" else None))
+            first_unattached = next((e for e, v in verdicts if v is False), None)
+            if any(v is None for _, v in verdicts[:-1]):
+                c.prove("C07.percall every-exception-consults-the-fms-flag", False, info=dict(site=first_site))
+            if first_unattached is None:
+                c.reach("percall-all-swallowed")
+                c.prove("C07.fms swallowed-robot-keeps-running", H.outcome[0] == "normal" and all(v for _, v in verdicts),
+                        info=dict(outcome=H.outcome[0], site=first_site))
+                if H.outcome[0] == "normal":
+                    lc.clauses_structure(c, H, "C07", timing=False, lifecycle=True, order=True)
+            else:
+                c.reach("percall-propagated-after-swallowed" if verdicts[0][1] else "percall-propagated")
+                ok = H.outcome[0] == "boom" and id(H.outcome[1]) == first_unattached[2] and verdicts[-1][0] is first_unattached
+                c.prove("C07.nofms propagates-same-exception", ok, info=dict(outcome=H.outcome[0], site=first_unattached[1], raised=len(raised)))
+            return
         if fms:
+
             c.reach("fault-swallowed")
             c.prove("C07.fms swallowed-robot-keeps-running", H.outcome[0] == "normal",
                     info=dict(outcome=H.outcome[0], site=first_site, sites=sorted({e[1] for e in raised})))
